@@ -132,6 +132,8 @@ func (h *harness) buildCase(name string) corr.Case {
 					}
 				}
 				add(key, fmt.Sprintf("pipe play %d", r), "ok")
+			case "replay":
+				add(float64(ob.cd), fmt.Sprintf("pipe replay %d", r), "ok")
 			case "pause":
 				cs := h.cands(ob.cs, ob.cd)
 				k1 := float64(ob.cs)
@@ -333,7 +335,7 @@ func (h *harness) checkProperty(c *corr.Ctx) {
 		r := rd.idx
 		who := fmt.Sprintf("reader %d (%s)", r, rd.spec.Transport)
 		desync = false
-		if sc.TLS && (sc.ArbSeq || sc.SRTPWrap) {
+		if sc.TLS && sc.ExpectDesync {
 			for _, e := range rd.decodeErrs {
 				if strings.Contains(e, "auth tag") {
 					desync = true
@@ -372,6 +374,63 @@ func (h *harness) checkProperty(c *corr.Ctx) {
 			}
 			if a == nil && len(h.ssrc[m]) == 1 {
 				c.Dist("setup-without-ssrc")
+			}
+		}
+		// secure: the SETUP response announces every format of the media with its current rollover counter
+		if sc.TLS {
+			var setupOb *cobs
+			for i := range rd.ctl {
+				if rd.ctl[i].op == "setup" || (rd.ctl[i].op == "play" && rd.ctl[i].first) {
+					setupOb = &rd.ctl[i]
+					break
+				}
+			}
+			for k, entries := range rd.keyMgmt {
+				if k >= len(rd.spec.Medias) || setupOb == nil {
+					break
+				}
+				m := rd.spec.Medias[k]
+				for f, want := range h.ssrc[m] {
+					var got *mikeyEntry
+					for i := range entries {
+						if entries[i].ssrc == want {
+							got = &entries[i]
+						}
+					}
+					if got == nil {
+						viol("the SETUP response announces every format of the media (SSRC and rollover counter)", "c01-mikey-ssrc-missing",
+							fmt.Sprintf("%s SETUP of media %d: the MIKEY CS-ID map %v does not list SSRC %d of format %d", who, m, entries, want, sc.Medias[m][f]))
+						continue
+					}
+					// rollover counter of the format: between its value before the SETUP began and after it returned
+					first, nLo, nHi := -1, 0, 0
+					for j, w := range h.writes {
+						if w.err != nil || h.pk[j].media != m || h.pk[j].fi != f {
+							continue
+						}
+						if first < 0 {
+							first = int(h.pk[j].seq)
+						}
+						if w.we < setupOb.cs {
+							nLo++
+						}
+						if w.wb < setupOb.cd {
+							nHi++
+						}
+					}
+					if first >= 0 && !sc.ArbSeq {
+						rocOf := func(n int) uint32 {
+							if n == 0 {
+								return 0
+							}
+							return uint32((first + n - 1) >> 16)
+						}
+						if got.roc < rocOf(nLo) || got.roc > rocOf(nHi) {
+							viol("the SETUP response announces every format of the media (SSRC and rollover counter)", "c01-mikey-roc",
+								fmt.Sprintf("%s SETUP of media %d: format %d announced with ROC %d, the writer's sequence number wrapped %d..%d times", who, m, sc.Medias[m][f], got.roc, rocOf(nLo), rocOf(nHi)))
+						}
+					}
+				}
 			}
 		}
 		if !rd.udp {
